@@ -250,7 +250,13 @@ impl Monitor for C10 {
                     // gene symbols, some shared between ids
                     if rng.chance(1, 4) { "DUP1".to_string() } else { format!("GENE{id}") }
                 } else {
-                    format!("{} {} {}", gen_name(&mut rng, NameMode::Mixed), rng.pick(&frag), id % 3)
+                    let n = format!("{} {} {}", gen_name(&mut rng, NameMode::Mixed), rng.pick(&frag), id % 3);
+                    // blanks at the ends belong to the name (stored and matched byte for byte)
+                    if rng.chance(1, 5) {
+                        format!("{}{n}{}", rng.pick(&["", " ", "\t", "\u{a0}", "  "]), rng.pick(&[" ", "", "\n", "\u{3000}", " \t"]))
+                    } else {
+                        n
+                    }
                 };
                 let terms: Vec<u32> = if want.is_empty() || rng.chance(1, 3) {
                     vec![]
@@ -429,6 +435,11 @@ impl Monitor for C10 {
             }
         }
 
+        // a replacement id: absent from the ontology, present (also the term itself, also another obsolete term)
+        let present_ids: Vec<u32> = added.iter().copied().filter(|x| *x != 0).collect(); // the formats write "no replacement" as 0
+        let pick_replacement = |rng: &mut Rng| -> u32 {
+            if !present_ids.is_empty() && rng.chance(1, 2) { *rng.pick(&present_ids) } else { rng.range(1, 9_999_999) as u32 }
+        };
         // ---- terms with obsolete flags and replacements through the v2 / v3 decoder: the returned term must
         // carry the data of its record
         if with_roots && beyond.iter().all(|b| !added.contains(b)) && rng.chance(1, 2) {
@@ -436,7 +447,7 @@ impl Monitor for C10 {
             bf.version = (2024, 4, 4);
             for id in &added {
                 let obsolete = *id != 1 && *id != 118 && rng.chance(1, 3);
-                let replaced_by = if *id != 1 && *id != 118 && rng.chance(1, 3) { Some(rng.range(1, 9_999_999) as u32) } else { None };
+                let replaced_by = if *id != 1 && *id != 118 && rng.chance(1, 3) { Some(pick_replacement(&mut rng)) } else { None };
                 bf.terms.push(TermFact { id: *id, name: names[id].clone(), obsolete, replaced_by });
             }
             let v = if rng.chance(1, 2) { 3 } else { 2 };
@@ -462,8 +473,8 @@ impl Monitor for C10 {
                     }
                     for t in &bf.terms {
                         bump(&mut out.events, "Ontology::hpo");
-                        let got = bo.hpo(t.id).map(|x| (x.name().to_string(), x.is_obsolete(), x.replacement_id().map(|r| r.as_u32())));
-                        let exp = Some((t.name.clone(), t.obsolete, t.replaced_by));
+                        let got = bo.hpo(t.id).map(|x| (x.id().as_u32(), x.name().to_string(), x.is_obsolete(), x.replacement_id().map(|r| r.as_u32())));
+                        let exp = Some((t.id, t.name.clone(), t.obsolete, t.replaced_by));
                         out.check(got == exp, "C10", "term_data_after_binary_load", || {
                             format!("v{v} file: hpo({}) returned {got:?}, the record says {exp:?}", t.id)
                         });
@@ -484,7 +495,7 @@ impl Monitor for C10 {
                 }
                 // stanzas with is_obsolete / replaced_by tags (in any position relative to the name)
                 let obsolete = *id != 1 && *id != 118 && rng.chance(1, 4);
-                let replaced_by = if *id != 1 && *id != 118 && rng.chance(1, 4) { Some(rng.range(1, 9_999_999) as u32) } else { None };
+                let replaced_by = if *id != 1 && *id != 118 && rng.chance(1, 4) { Some(pick_replacement(&mut rng)) } else { None };
                 jf.terms.push(TermFact { id: *id, name, obsolete, replaced_by });
             }
             // the records that the text formats can express (those with at least one term)
@@ -535,8 +546,8 @@ impl Monitor for C10 {
                     record_checks(&jo, &jrecs, "/text_files", &mut rng, &mut out);
                     for t in &jf.terms {
                         bump(&mut out.events, "Ontology::hpo");
-                        let got = jo.hpo(t.id).map(|x| (x.name().to_string(), x.is_obsolete(), x.replacement_id().map(|r| r.as_u32())));
-                        let exp = Some((t.name.clone(), t.obsolete, t.replaced_by));
+                        let got = jo.hpo(t.id).map(|x| (x.id().as_u32(), x.name().to_string(), x.is_obsolete(), x.replacement_id().map(|r| r.as_u32())));
+                        let exp = Some((t.id, t.name.clone(), t.obsolete, t.replaced_by));
                         out.check(got == exp, "C10", "term_data_after_obo_load", || format!("hp.obo: hpo({}) returned {got:?}, the stanza says {exp:?}", t.id));
                     }
                 }
